@@ -806,5 +806,11 @@ func main() {
 			runCaseV2(run, root, i, n+i)
 		}
 	})
+	n3 := run.N(150, 5000)
+	vh.Parallel(n3, 16, func(i int) {
+		if run.Want(n + n2 + i) {
+			runCaseConc(run, root, i, n+n2+i)
+		}
+	})
 	run.Finish("case = (configuration, action sequence, schedule): 1-3 workspaces (some already plotted, sometimes configured with plot/mine flags) on the real v1 keeper over the scripted plot backend; 6-24 moves drawn from {single or bulk plot/mine/stop/remove/delete incl. unknown ids, release the plotter by one hook gate, decide the scripted plot outcome (complete/abort), keeper stop, keeper start}; after every move all state queries are read at a quiescent point; non-trivial = at least one workspace changed state; distinct by hash of the executed move/observation trace", run.N(400, 10000))
 }
